@@ -130,8 +130,36 @@ def signature(cells, mode, kind, name, tok="p2"):
 
 
 def describe(sig):
+    if sig and all(len(x) == 2 for x in sig):
+        acts = sorted({"; ".join(x[1][0]) + ((" {" + ",".join(x[1][1]) + "}") if x[1][1] else "") for x in sig})
+        return "%d situations e.g. [%s]" % (len(sig), acts[0][:160] if acts else "")
     acts = sorted({"; ".join("%s(%s)" % (a, ",".join(args)) for a, args in s[1] if a != "self.debug_step") + " -> " + s[2] for s in sig})
     return "%d paths e.g. [%s]" % (len(sig), acts[0][:160] if acts else "")
+
+
+def semantic_signature(cells, mode, kind, name):
+    """the token's handling in the vocabulary of the standard's steps (lib/rowcmp.py): insensitive to a helper being written out;
+    None when some action or guard has no translation (the raw signature is used then)"""
+    from . import rowcmp
+    tok = ("S:" if kind == "StartTag" else "E:") + name
+    unmapped = []
+    try:
+        cps = rowcmp.code_paths(cells, mode, tok, unmapped.append)
+        out = set()
+        for conds, c in cps:
+            st = rowcmp.translate(c, mode, tok)
+            if st is None:
+                continue
+            if "close-p" in st and "p-in-button-scope" not in conds:
+                out.add((tuple(sorted(dict(conds, **{"p-in-button-scope": True}).items())), rowcmp.canon(["close-p!" if x == "close-p" else x for x in st])))
+                out.add((tuple(sorted(dict(conds, **{"p-in-button-scope": False}).items())), rowcmp.canon([x for x in st if x != "close-p"])))
+            else:
+                out.add((tuple(sorted(conds.items())), rowcmp.canon(st)))
+    except (rowcmp.Untranslated, ValueError):
+        return None
+    if unmapped or not out:
+        return None
+    return frozenset(out)
 
 
 def compare(cells, modes_in_code, report_ok, report_bad, foreign_cells=None):
@@ -167,9 +195,19 @@ def compare(cells, modes_in_code, report_ok, report_bad, foreign_cells=None):
         skip = set(spec.NOT_TRANSCRIBED.get(mode, []))
         kinds = [("E", "EndTag")] if mode in spec.END_TAGS_ONLY else [("S", "StartTag"), ("E", "EndTag")]
         sigs = {}
+        sems = {}   # handling in the standard's vocabulary (insensitive to a helper being written out); None = not translatable
+
+        def same(a, b):
+            """one handling: equal raw signatures, or equal translations"""
+            return sigs[a] == sigs[b] or (sems.get(a) is not None and sems.get(a) == sems.get(b))
+
         for kp, kind in kinds:
             for name in universe:
-                sigs[kp + ":" + name] = signature(foreign_cells, mode, kind, name, "p1") if mode == "Foreign" else signature(cells, mode, kind, name)
+                if mode == "Foreign":
+                    sigs[kp + ":" + name] = signature(foreign_cells, mode, kind, name, "p1")
+                else:
+                    sigs[kp + ":" + name] = signature(cells, mode, kind, name)
+                    sems[kp + ":" + name] = semantic_signature(cells, mode, kind, name)
         listed = {}
         for i, r in enumerate(rows):
             for t in r:
@@ -187,7 +225,7 @@ def compare(cells, modes_in_code, report_ok, report_bad, foreign_cells=None):
             if not r:
                 continue
             n += len(r)
-            odd = [t for t in r if sigs[t] != sigs[r[0]]]
+            odd = [t for t in r if not same(t, r[0])]
             key = "mode:%s/row:%s" % (mode, r[0])
             if odd:
                 bad = True
@@ -200,7 +238,7 @@ def compare(cells, modes_in_code, report_ok, report_bad, foreign_cells=None):
             fresh = sigs[kp + ":" + FRESH]
             others = sorted(t for t in sigs if t[0] == kp and t not in listed and t not in skip)
             n += len(others)
-            odd = [t for t in others if sigs[t] != fresh]
+            odd = [t for t in others if not same(t, kp + ":" + FRESH)]
             key = "mode:%s/any-other-%s" % (mode, kind)
             if odd:
                 bad = True
@@ -227,7 +265,7 @@ def compare(cells, modes_in_code, report_ok, report_bad, foreign_cells=None):
                     want_equal = (marks[(mode, a)] == "else" and b == fs) or (marks[(mode, a)] == "other-end" and b == fe)
                 if (mode, a, b) in same_ok:
                     continue
-                if want_equal and sigs[a] != sigs[b]:
+                if want_equal and not same(a, b):
                     bad = True
                     report_bad("mode:%s/rows:%s~%s" % (mode, a, b), "rows-differ", "in %s the standard handles %s exactly like %s; code: %s vs %s" % (
                         mode, a, "anything else / any other tag" if b in (fs, fe) else b, describe(sigs[a]), describe(sigs[b])))
